@@ -491,6 +491,11 @@ def run(pid: str, tier: str, seed: int, *, replay: dict | None = None) -> int:
     ck.add_tlc(v.result, f"trace validation of {len(traces)} recorded worker runs against Trace_Worker (clauses {chk})")
     ck.traces += len(traces)
     lap("traces validated")
+    if pid in ("C03", "C09", "C10") and replay is None:
+        # the same runs against the implementation-shaped Runner specification (those it has words for)
+        from checks import runner_traces
+        runner_traces.run_part(ck, allsc, traces)
+        lap("in-memory runs validated against Runner.tla")
     for sc, (t, info) in zip(allsc, allrec):
         fp = hash(str([(e.get("e"), e.get("op"), e.get("i"), e.get("v"), e.get("st"), e.get("out")) for e in t]))
         ck.case(fp, nontrivial=bool(info["exec_count"]))
